@@ -50,6 +50,7 @@ pub static INFO: PropInfo = PropInfo {
         ("noreply.invalid", 2000),
         ("noreply.token-used-from-other-address.full", 20),
         ("cross_challenge_same_id_or_user_data", 20),
+        ("gen.corrupted-retry", 200),
         ("from.unknown", 1000),
         ("from.pending", 1000),
     ],
@@ -271,8 +272,19 @@ fn episode_inner(ctx: &Ctx, out: &mut Outcome, run_seed: u64, rr: &mut Rng, budg
             34..=37 if last_request_from.contains_key(&from) => {
                 let mut d = vec![0u8];
                 d.extend_from_slice(&last_request_from[&from]);
-                let class = if led.valid_token(&d, srv.now).is_some() { "valid-token" } else { "repeated-invalid-request" };
-                Input { gen: "repeated-request", class, from, bytes: d }
+                if r.chance(1, 2) {
+                    // a corrupted RETRY of the very request this address sent before (nonce or sealed body,
+                    // never the trailing 16 bytes): whatever the server remembers about the first one, this
+                    // one carries no valid token
+                    let i = req_off::XNONCE + r.usize_below(REQUEST_LEN - 16 - req_off::XNONCE);
+                    d[i] ^= 1 << r.below(8);
+                    out.count("gen.corrupted-retry");
+                    let class = if led.valid_token(&d, srv.now).is_some() { "valid-token" } else { "corrupted-retry" };
+                    Input { gen: "corrupted-retry", class, from, bytes: d }
+                } else {
+                    let class = if led.valid_token(&d, srv.now).is_some() { "valid-token" } else { "repeated-invalid-request" };
+                    Input { gen: "repeated-request", class, from, bytes: d }
+                }
             }
             38..=45 => {
                 let id = r.next_u64();
